@@ -45,7 +45,7 @@ func childBuilder(c *core.Ctx, cpus int) func(req pj.BuildReq, env []string) (pj
 			if strings.Contains(r.Stderr, "starlark.(*cell).Freeze") && strings.Contains(r.Stderr, "starlark.ExecFile") {
 				res.Panic += " in-interpreter-freeze-during-module-load"
 			}
-			res.RunErr = "child died: " + res.Panic + "\n" + lastLines(r.Stderr, 25)
+			res.RunErr = "child died: " + res.Panic + "\n" + lastLines(r.Stderr, 400)
 			return res, false
 		}
 		if err := json.Unmarshal([]byte(r.Stdout), &res); err != nil {
